@@ -166,6 +166,15 @@ fn build_rdr(s: &RdrSpec) -> AnyRdr {
     }
 }
 
+fn has_liar(s: &RdrSpec) -> bool {
+    match s {
+        RdrSpec::Liar(..) => true,
+        RdrSpec::Take(_, r) => has_liar(r),
+        RdrSpec::Chain(a, b) => has_liar(a) || has_liar(b),
+        _ => false,
+    }
+}
+
 impl Read for AnyRdr {
     fn read(&mut self, buf: &mut [u8]) -> io::Result<usize> {
         match self {
@@ -206,6 +215,17 @@ unsafe impl ReadBufferMarker for AnyRdr {}
 trait Src {
     fn next(&mut self) -> Option<Op>;
     fn emit(&mut self, line: String, fails: &mut Vec<(String, String)>, counts: &mut Vec<(String, u64)>);
+    /// A view's counter is beyond its capacity.  Returning from the closure would run the
+    /// destructor of the intermediate object with that counter (`Vec::set_len` beyond the capacity:
+    /// std's precondition check aborts the process).  Report what was found and never return: the
+    /// session thread is parked for good and the container is leaked.
+    fn corrupt(&mut self, fails: &mut Vec<(String, String)>, counts: &mut Vec<(String, u64)>) -> !;
+}
+
+fn park_forever() -> ! {
+    loop {
+        std::thread::park();
+    }
 }
 
 /// what the property says the view must hold: capacity at creation and the bytes committed so far
@@ -235,6 +255,8 @@ struct Cx<'s> {
     ghosts: Vec<Ghost>,
     rdr: AnyRdr,
     rdr_spec: RdrSpec,
+    /// buffer sizes of the reads done with the current reader (to rebuild its state)
+    read_sizes: Vec<usize>,
     phase: Phase,
     last_op: String,
     fails: Vec<(String, String)>,
@@ -326,6 +348,33 @@ fn read_on<'d, B: Buffer<'d>>(buf: B, caps: &[usize], cx: &mut Cx, avail: usize)
     let room = capped(avail, caps);
     cx.phase = Phase::Read { exceeds: exceeds(avail, caps) };
     LIAR_CALLED.with(|l| l.set(false));
+    // A reader that claims more than the room it was given must be refused by `advance`'s assert.
+    // Look at that on a scratch slice first, through `BufferRef::new` with a counter the harness
+    // owns: were the counter to move past the capacity, the real call would end in a destructor
+    // running `set_len` beyond the capacity (std aborts the process there).
+    if has_liar(&cx.rdr_spec) {
+        // a copy of the reader in its current state: rebuilt and fed the same sequence of reads
+        let mut copy = build_rdr(&cx.rdr_spec);
+        for &n in &cx.read_sizes {
+            let mut tmp = vec![0u8; n];
+            let _ = catch(|| copy.read(&mut tmp[..]).unwrap_or(0));
+        }
+        let mut scratch = vec![0u8; room];
+        let mut counter = 0usize;
+        let _ = catch(|| {
+            let b = BufferRef::new(&mut scratch[..], &mut counter);
+            unsafe { libtw2_buffer::read_buffer_ref(&mut copy, b) }.map(|s| s.len()).unwrap_or(0)
+        });
+        cx.count("liar_probes");
+        if counter > room {
+            cx.fail(
+                "C19/advance-past-capacity",
+                format!("a reader claiming more than the {} bytes it was given moved the counter to {}", room, counter),
+            );
+            cx.src.corrupt(&mut cx.fails, &mut cx.counts)
+        }
+    }
+    cx.read_sizes.push(room);
     // what an honest simple reader must deliver
     let expect: Option<Vec<u8>> = match &cx.rdr {
         AnyRdr::Slice(d, p) => Some(d[*p..(*p + room.min(d.len() - *p))].to_vec()),
@@ -375,13 +424,40 @@ fn open_on<'d, B: Buffer<'d>>(buf: B, caps: &[usize], cx: &mut Cx, avail: usize)
     with_caps(buf, caps, |v| view_loop(v, cx, room))
 }
 
+/// `remaining()`, or `None` when it panics (a counter beyond the capacity makes its subtraction
+/// overflow); a panic that is caught here does not unwind through the destructors of the library
+fn grem(v: &BufferRef) -> Option<usize> {
+    catch(|| v.remaining()).ok()
+}
+
 fn ctx_view(depth: usize, v: &BufferRef) -> String {
-    format!("@{} rem={}", depth, v.remaining())
+    match grem(v) {
+        Some(n) => format!("@{} rem={}", depth, n),
+        None => format!("@{} rem=?", depth),
+    }
 }
 
 fn view_loop<'d>(mut v: BufferRef<'d, '_>, cx: &mut Cx, room: usize) -> Exit<'d> {
     cx.phase = Phase::Idle;
-    let cap0 = v.remaining();
+    let mut kept: Vec<(&'d [u8], Vec<u8>)> = vec![];
+    macro_rules! bail {
+        ($pop:expr) => {{
+            cx.fail("C19/counter-vs-capacity", "remaining() panicked: the counter is beyond the capacity".to_string());
+            cx.src.corrupt(&mut cx.fails, &mut cx.counts)
+        }};
+    }
+    macro_rules! rem {
+        () => {
+            match grem(&v) {
+                Some(n) => n,
+                None => bail!(true),
+            }
+        };
+    }
+    let cap0 = match grem(&v) {
+        Some(n) => n,
+        None => bail!(false),
+    };
     if cap0 != room {
         cx.fail("C19/view-capacity", format!("new view has remaining()={}, expected min(available, caps)={}", cap0, room));
     }
@@ -389,14 +465,14 @@ fn view_loop<'d>(mut v: BufferRef<'d, '_>, cx: &mut Cx, room: usize) -> Exit<'d>
     let depth = cx.ghosts.len();
     cx.count(&format!("views_depth_{}", depth.min(4)));
     cx.emit("open", &ctx_view(depth, &v));
-    let mut kept: Vec<(&'d [u8], Vec<u8>)> = vec![];
     loop {
         // the property's invariant: counter + remaining = capacity, counter = committed bytes
         {
+            let now = rem!();
             let g = cx.ghosts.last().unwrap();
             let (gc, gl) = (g.cap, g.log.len());
-            if gl > gc || v.remaining() != gc - gl.min(gc) {
-                cx.fail("C19/counter-vs-capacity", format!("capacity {}, committed {}, remaining() {}", gc, gl, v.remaining()));
+            if gl > gc || now != gc - gl.min(gc) {
+                cx.fail("C19/counter-vs-capacity", format!("capacity {}, committed {}, remaining() {}", gc, gl, now));
             }
         }
         let op = match cx.next() {
@@ -408,9 +484,9 @@ fn view_loop<'d>(mut v: BufferRef<'d, '_>, cx: &mut Cx, room: usize) -> Exit<'d>
         };
         match op {
             Op::Write(bs) => {
-                let before = v.remaining();
+                let before = rem!();
                 let r = v.write(&bs);
-                let after = v.remaining();
+                let after = rem!();
                 let fit = bs.len().min(before);
                 if r.is_err() != (bs.len() > before) {
                     cx.fail("C19/write-error-iff-too-long", format!("write of {} bytes with {} remaining returned {:?}", bs.len(), before, r));
@@ -423,9 +499,9 @@ fn view_loop<'d>(mut v: BufferRef<'d, '_>, cx: &mut Cx, room: usize) -> Exit<'d>
                 cx.emit(if r.is_ok() { "ok" } else { "cap" }, &ctx_view(depth, &v));
             }
             Op::ExtendRep(b, n) => {
-                let before = v.remaining();
+                let before = rem!();
                 let r = v.extend(std::iter::repeat(b).take(n));
-                let after = v.remaining();
+                let after = rem!();
                 let fit = n.min(before);
                 if r.is_err() != (n > before) {
                     cx.fail("C19/write-error-iff-too-long", format!("extend of {} bytes with {} remaining returned {:?}", n, before, r));
@@ -438,7 +514,7 @@ fn view_loop<'d>(mut v: BufferRef<'d, '_>, cx: &mut Cx, room: usize) -> Exit<'d>
                 cx.emit(if r.is_ok() { "ok" } else { "cap" }, &ctx_view(depth, &v));
             }
             Op::ExtendPanic(bs) => {
-                let before = v.remaining();
+                let before = rem!();
                 let fit = bs.len().min(before);
                 // the bytes are committed one by one before the iterator panics
                 cx.ghosts.last_mut().unwrap().log.extend_from_slice(&bs[..fit]);
@@ -457,7 +533,7 @@ fn view_loop<'d>(mut v: BufferRef<'d, '_>, cx: &mut Cx, room: usize) -> Exit<'d>
                 cx.emit("cap", &ctx_view(depth, &v));
             }
             Op::Advance(n, fill) => {
-                let before = v.remaining();
+                let before = rem!();
                 let k = n.min(before);
                 unsafe {
                     let u = v.uninitialized_mut();
@@ -481,16 +557,17 @@ fn view_loop<'d>(mut v: BufferRef<'d, '_>, cx: &mut Cx, room: usize) -> Exit<'d>
                 cx.emit("done", &ctx_view(depth, &v));
             }
             Op::Remaining => {
-                let r = v.remaining();
+                let r = rem!();
                 cx.emit(&format!("{}", r), &ctx_view(depth, &v));
             }
             Op::SetR(spec) => {
                 cx.rdr = build_rdr(&spec);
                 cx.rdr_spec = spec;
+                cx.read_sizes.clear();
                 cx.emit("done", &ctx_view(depth, &v));
             }
             Op::Open(caps) => {
-                let before = v.remaining();
+                let before = rem!();
                 let ex = open_on(&mut v, &caps, cx, before);
                 child_done(cx, &v, before, &ex);
                 kept.extend(ex.kept);
@@ -499,7 +576,7 @@ fn view_loop<'d>(mut v: BufferRef<'d, '_>, cx: &mut Cx, room: usize) -> Exit<'d>
                 }
             }
             Op::Read(caps) => {
-                let before = v.remaining();
+                let before = rem!();
                 let ex = read_on(&mut v, &caps, cx, before);
                 child_done(cx, &v, before, &ex);
                 kept.extend(ex.kept);
@@ -529,9 +606,9 @@ fn view_loop<'d>(mut v: BufferRef<'d, '_>, cx: &mut Cx, room: usize) -> Exit<'d>
 /// after a nested view / nested read was released: the parent's counter moved by exactly the
 /// child's committed bytes
 fn child_done(cx: &mut Cx, v: &BufferRef, before: usize, ex: &Exit) {
-    let after = v.remaining();
-    if ex.log.len() > before || after != before - ex.log.len().min(before) {
-        cx.fail("C19/nested-count", format!("child committed {} bytes, parent remaining {} -> {}", ex.log.len(), before, after));
+    let after = grem(v);
+    if ex.log.len() > before || after != Some(before - ex.log.len().min(before)) {
+        cx.fail("C19/nested-count", format!("child committed {} bytes, parent remaining {} -> {:?}", ex.log.len(), before, after));
     }
     cx.ghosts.last_mut().unwrap().log.extend_from_slice(&ex.log);
     check_kept(cx, &ex.kept);
@@ -731,6 +808,7 @@ fn store_loop(spec: &StoreSpec, src: &mut dyn Src, announce: bool) {
         ghosts: vec![],
         rdr: AnyRdr::Empty(io::empty()),
         rdr_spec: RdrSpec::Empty,
+        read_sizes: vec![],
         phase: Phase::Idle,
         last_op: "new".to_string(),
         fails: vec![],
@@ -753,6 +831,7 @@ fn store_loop(spec: &StoreSpec, src: &mut dyn Src, announce: bool) {
             Op::SetR(s) => {
                 cx.rdr = build_rdr(&s);
                 cx.rdr_spec = s;
+                cx.read_sizes.clear();
                 cx.emit("done", &store.ctx());
             }
             _ => cx.emit("bad-op", &store.ctx()),
@@ -768,6 +847,12 @@ fn store_act(store: &mut Store, act: &Act, cx: &mut Cx, spec: &StoreSpec) {
     let old = store.contents().to_vec();
     let avail = store.avail();
     let (resp, log) = store.act(act, cx);
+    if let Store::Vec(v) = store {
+        if v.len() > v.capacity() {
+            cx.fail("C19/write-past-capacity", format!("the vector's length {} exceeds its capacity {}", v.len(), v.capacity()));
+            unsafe { v.set_len(v.capacity()) };
+        }
+    }
     let new = store.contents().to_vec();
     if log.len() > avail {
         cx.fail("C19/write-past-capacity", format!("{} bytes committed, capacity was {}", log.len(), avail));
@@ -830,6 +915,14 @@ struct VecSrc<'a> {
     h: u64,
     fails: Vec<(String, String)>,
     counts: Vec<(String, u64)>,
+    /// where the sweep reports when it has to stop for good
+    done: mpsc::Sender<HashDone>,
+}
+
+struct HashDone {
+    h: Option<u64>,
+    fails: Vec<(String, String)>,
+    counts: Vec<(String, u64)>,
 }
 
 impl<'a> Src for VecSrc<'a> {
@@ -843,9 +936,21 @@ impl<'a> Src for VecSrc<'a> {
         self.fails.append(fails);
         self.counts.append(counts);
     }
+    fn corrupt(&mut self, fails: &mut Vec<(String, String)>, counts: &mut Vec<(String, u64)>) -> ! {
+        self.fails.append(fails);
+        self.counts.append(counts);
+        let _ = self.done.send(HashDone {
+            h: None,
+            fails: std::mem::take(&mut self.fails),
+            counts: std::mem::take(&mut self.counts),
+        });
+        park_forever()
+    }
 }
 
 struct Reply {
+    /// the session thread has parked itself for good (see `Src::corrupt`)
+    leaked: bool,
     line: String,
     fails: Vec<(String, String)>,
     counts: Vec<(String, u64)>,
@@ -863,10 +968,20 @@ impl Src for ChanSrc {
     }
     fn emit(&mut self, line: String, fails: &mut Vec<(String, String)>, counts: &mut Vec<(String, u64)>) {
         let _ = self.tx.send(Reply {
+            leaked: false,
             line,
             fails: std::mem::take(fails),
             counts: std::mem::take(counts),
         });
+    }
+    fn corrupt(&mut self, fails: &mut Vec<(String, String)>, counts: &mut Vec<(String, u64)>) -> ! {
+        let _ = self.tx.send(Reply {
+            leaked: true,
+            line: "corrupt".to_string(),
+            fails: std::mem::take(fails),
+            counts: std::mem::take(counts),
+        });
+        park_forever()
     }
 }
 
@@ -886,11 +1001,36 @@ impl Session {
         });
         Session { tx: Some(tx), rx, join: Some(join) }
     }
-    fn close(&mut self) {
+    /// ends the session; returns what the session thread still reported
+    fn close(&mut self) -> Vec<Reply> {
         self.tx = None; // the session thread sees the end of its operations and unwinds normally
+        let mut rest = vec![];
+        if self.join.is_none() {
+            return rest;
+        }
+        // wait until the thread has finished (its sender is dropped) or has parked itself for good
+        loop {
+            match self.rx.recv() {
+                Ok(r) => {
+                    let leaked = r.leaked;
+                    rest.push(r);
+                    if leaked {
+                        self.detach();
+                        return rest;
+                    }
+                }
+                Err(_) => break,
+            }
+        }
         if let Some(j) = self.join.take() {
             let _ = j.join();
         }
+        rest
+    }
+    /// the session thread is parked for good: do not wait for it
+    fn detach(&mut self) {
+        self.join = None;
+        self.tx = None;
     }
 }
 
@@ -913,22 +1053,51 @@ fn absorb(o: &mut Oracle, fails: Vec<(String, String)>, counts: Vec<(String, u64
     }
 }
 
-fn hash_all(spec: &StoreSpec, alpha: &[Op], len: usize, o: &mut Oracle) -> u64 {
-    let mut h = FNV_OFFSET;
+fn hash_all(spec: &StoreSpec, alpha: &[Op], len: usize, o: &mut Oracle) -> Option<u64> {
+    let (tx, rx) = mpsc::channel::<HashDone>();
+    let spec = spec.clone();
+    let alpha: Vec<Op> = alpha.to_vec();
     let a = alpha.len();
     let total = a.pow(len as u32);
-    for i in 0..total {
-        let mut k = i;
-        let mut ops = Vec::with_capacity(len);
-        for _ in 0..len {
-            ops.push(&alpha[k % a]);
-            k /= a;
+    // on its own thread, so that a sweep that meets a corrupt counter can stop for good
+    let j = std::thread::spawn(move || {
+        let mut h = FNV_OFFSET;
+        let mut fails = vec![];
+        let mut counts = vec![];
+        for i in 0..total {
+            let mut k = i;
+            let mut ops = Vec::with_capacity(len);
+            for _ in 0..len {
+                ops.push(&alpha[k % a]);
+                k /= a;
+            }
+            let mut src = VecSrc { ops, pos: 0, h, fails, counts, done: tx.clone() };
+            store_loop(&spec, &mut src, false);
+            h = src.h;
+            fails = src.fails;
+            counts = src.counts;
+            // keep the counters small
+            if counts.len() > 4096 {
+                let mut m = std::collections::BTreeMap::new();
+                for (k, n) in counts.drain(..) {
+                    *m.entry(k).or_insert(0u64) += n;
+                }
+                counts = m.into_iter().collect();
+            }
         }
-        let mut src = VecSrc { ops, pos: 0, h, fails: vec![], counts: vec![] };
-        store_loop(spec, &mut src, false);
-        h = src.h;
-        absorb(o, src.fails, src.counts);
-    }
+        let _ = tx.send(HashDone { h: Some(h), fails, counts });
+    });
+    let r = rx.recv().ok();
+    let h = match r {
+        Some(d) => {
+            absorb(o, d.fails, d.counts);
+            if d.h.is_some() {
+                let _ = j.join();
+            }
+            d.h
+        }
+        None => None,
+    };
     o.add("sessions_swept", total as u64);
     h
 }
@@ -936,7 +1105,11 @@ fn hash_all(spec: &StoreSpec, alpha: &[Op], len: usize, o: &mut Oracle) -> u64 {
 impl Runner for R {
     fn run(&mut self, t: &[&str], o: &mut Oracle) -> String {
         if t[0] == "new" {
-            self.sess = None;
+            if let Some(mut s) = self.sess.take() {
+                for r in s.close() {
+                    absorb(o, r.fails, r.counts);
+                }
+            }
             let spec = if t.len() == 4 { parse_store(t[1], t[2], t[3]) } else { None };
             let spec = match spec {
                 Some(s) => s,
@@ -967,13 +1140,16 @@ impl Runner for R {
                 .collect();
             return match (spec, len, ops) {
                 (Some(spec), Some(len), Some(ops)) if !ops.is_empty() && len <= 8 => {
-                    format!("h {}", hash_all(&spec, &ops, len, o))
+                    match hash_all(&spec, &ops, len, o) {
+                        Some(h) => format!("h {}", h),
+                        None => "corrupt".to_string(),
+                    }
                 }
                 _ => "bad-op".to_string(),
             };
         }
         let op = parse_op(t);
-        match (&self.sess, op) {
+        match (&mut self.sess, op) {
             (Some(s), Some(op)) => {
                 if s.tx.as_ref().map(|tx| tx.send(op).is_err()).unwrap_or(true) {
                     return "dead".to_string();
@@ -981,6 +1157,9 @@ impl Runner for R {
                 match s.rx.recv() {
                     Ok(r) => {
                         absorb(o, r.fails, r.counts);
+                        if r.leaked {
+                            s.detach();
+                        }
                         r.line
                     }
                     Err(_) => "dead".to_string(),
@@ -1243,7 +1422,7 @@ impl Domain for D {
         let thorough = tier == "thorough";
         // 1. scripted scenarios for every small container shape
         let shapes: Vec<(usize, usize)> = if miri {
-            vec![(0, 0), (2, 1), (4, 0), (4, 4)]
+            vec![(0, 0), (4, 0), (4, 1)]
         } else {
             let mut v = vec![];
             for cap in [0usize, 1, 2, 3, 4, 5, 8, 16, 32] {
@@ -1258,6 +1437,9 @@ impl Domain for D {
         for kind in KINDS {
             for &(cap, len) in &shapes {
                 if (kind == "slice" || kind == "sref") && len != 0 {
+                    continue;
+                }
+                if miri && (kind == "vec" || kind == "arr") && (cap, len) == (4, 0) {
                     continue;
                 }
                 scripted(out, kind, cap, len);
@@ -1283,6 +1465,35 @@ impl Domain for D {
                         }
                     }
                 }
+            }
+        }
+        // 2b. thorough: length-6 sweeps of the first alphabet, and random alphabets
+        if thorough {
+            for kind in ["vec", "sref"] {
+                let old = if kind == "sref" { pat(2, 0xa0) } else { pat(1, 0xa0) };
+                writeln!(out, "hash {} 2 {} 6 / {}", kind, to_hex(&old), alphabet(0, 1).join(" / ")).unwrap();
+            }
+            for i in 0..48 {
+                let kind = KINDS[i % 4];
+                let cap = 1 + r.below(4) as usize;
+                let sl = kind == "slice" || kind == "sref";
+                let len = if sl { cap } else { r.below(cap as u64 + 1) as usize };
+                let room = if sl { cap } else { cap - len };
+                let mut al: Vec<String> = vec!["init".to_string(), "open".to_string()];
+                for _ in 0..6 {
+                    let n = r.below(room as u64 + 2) as usize;
+                    let x = match r.below(9) {
+                        0 | 1 | 2 => format!("w {}", to_hex(&r.bytes(n))),
+                        3 => format!("open{}", caps_str(&mut r, room).0),
+                        4 => format!("read{}", caps_str(&mut r, room).0),
+                        5 => format!("setr {}", rdr_str(&mut r, 0)),
+                        6 => format!("adv {} {:02x}", n, r.below(256)),
+                        7 => format!("xr {:02x} {}", r.below(256), n),
+                        _ => "drop".to_string(),
+                    };
+                    al.push(x);
+                }
+                writeln!(out, "hash {} {} {} 4 / {}", kind, cap, to_hex(&pat(len, 0xa0)), al.join(" / ")).unwrap();
             }
         }
         // 3. random sessions
